@@ -349,7 +349,7 @@ def oracle(case, obs):
         if fr == [3] or r["nframing"] > 1:
             return "request #%d carries both Content-Length and Transfer-Encoding (or one of them twice)" % idx
         if after_303:
-            empty = (fr == [0] and not payload) or (case["chunked"] and fr == [2] and dechunk(payload) == b"")
+            empty = fr == [0] and not payload          # neither framing header nor a single byte, chunked flag or not
             if method != "GET" or not empty:
                 return "the request after a 303 is not a body-less GET"
             continue
